@@ -339,4 +339,4 @@ def replay(chk, data):
 
 
 if __name__ == "__main__":
-    core.run_check("C10", __doc__.strip().splitlines()[0], body, replay)
+    core.run_check("C10", __doc__.strip().splitlines()[0], body, replay, level="other")
